@@ -2,11 +2,12 @@
 
 Programs: <=3 actors (actor i on host h_i), <=2 ops each over {E exec, S sleep, Pj put, Gj get, Rj exec on host j}, on 3 hosts
 with 3 dedicated links (plat 3) or 2 links with a two-hop route h0-h2 (plat 2); kept when they terminate fault-free and
-contain a communication or a remote exec. Bounds (actors, ops): (2,1) (2,2) (3,1), thorough adds (3,2) up to actor renaming.
+contain a communication or a remote exec. Bounds (actors, ops): (2,1) (3,1 on both platforms) (2,2); thorough adds (3,2) on
+plat 3 up to actor renaming (plat 2 with 3x2 = 2.6M cases is not run).
 For each program: fault-free run -> event dates D (0 and every date an op ended); for every resource r (3 hosts, 2-3 links),
 every t in D and delta in {-2^-10, 0, +2^-10} (dyadic, so every date stays an exact double): r is turned off at t+delta
  (a) by an injector actor on an immortal host, (b) by a state profile.  Thorough adds all pairs of such faults on two
-different resources (API) for the bounds up to (3,1).
+different resources (API) for the bounds (2,1), (3,1)/plat 3 and (2,2).
 Oracle = lib/c10ref.py (discrete-event reference with the failure rules of the statement): the per-actor logs (op, result,
 date), the on_exit calls (exactly one, failed flag, date; nothing logged after a kill) and the set of actors left blocked must
 be one of the outcomes the reference allows; where a fault carries the date of another event every processing order is
@@ -20,7 +21,7 @@ import common
 import c10ref as R
 
 DELTA = 2.0 ** -10
-CHUNK = 3000
+CHUNK = 500
 
 
 def prog_str(p):
@@ -49,6 +50,8 @@ def programs(bound):
             continue
         if K > 1 and all(len(o) < K for o in p):
             continue                                  # already in the bound with K-1 ops
+        if A == 3 and any(len(o) == 0 for o in p):
+            continue                                  # an idle third actor: that is a 2-actor program
         if canon and not canon3(p):
             continue
         ok, ff = R.terminates(plat, p)
@@ -85,7 +88,7 @@ def execute(exe, d, cases, tag):
     """-> list (per case) of observed outcome, or ('anomaly', text)"""
     sf = os.path.join(d, "scn-%s-%d.txt" % (tag, os.getpid()))
     open(sf, "w").write(scenario_text(cases))
-    r = subprocess.run([exe, sf, "--log=root.thres:critical"], stdout=subprocess.PIPE, stderr=subprocess.PIPE, text=True)
+    r = subprocess.run([exe, sf, "--log=root.thres:critical", "--cfg=contexts/stack-size:128"], stdout=subprocess.PIPE, stderr=subprocess.PIPE, text=True)
     os.unlink(sf)
     if r.returncode != 0 or not r.stdout.rstrip().splitlines()[-1:][0].startswith("END"):
         return None, "exit %s: %s" % (r.returncode, r.stderr[-1500:])
@@ -185,14 +188,14 @@ def run(ctx):
     _G["exe"], _G["d"] = exe, d
     dl = common.Deadline(max(ctx.deadline.left(), 0.8 * (ctx.deadline.end - ctx.deadline.t0)))
     #          name     actors ops plat canonical  pairs
-    bounds = [("2x1", (2, 1, 3, False), False), ("2x2", (2, 2, 3, False), False),
-              ("3x1/plat3", (3, 1, 3, False), False), ("3x1/plat2", (3, 1, 2, False), False)]
+    bounds = [("2x1", (2, 1, 3, False), False), ("3x1/plat3", (3, 1, 3, False), False), ("3x1/plat2", (3, 1, 2, False), False),
+              ("2x2", (2, 2, 3, False), False)]
     if not ctx.quick:
-        bounds += [("pairs:2x1", (2, 1, 3, False), True), ("pairs:2x2", (2, 2, 3, False), True), ("pairs:3x1/plat3", (3, 1, 3, False), True),
-                   ("3x2/plat3", (3, 2, 3, True), False), ("3x2/plat2", (3, 2, 2, False), False)]
+        bounds += [("pairs:2x1", (2, 1, 3, False), True), ("pairs:3x1/plat3", (3, 1, 3, False), True),
+                   ("3x2/plat3", (3, 2, 3, True), False), ("pairs:2x2", (2, 2, 3, False), True)]
     tot = {"n": 0, "nontrivial": 0, "ties": 0, "tie_second": 0, "seen": {}, "programs": 0}
     fails, by_bound, times, samples, done = {}, {}, {}, [], []
-    rate = 0.0004
+    rate = 0.001
     try:
         for name, b, pairs in bounds:
             progs = programs(b)
@@ -247,7 +250,7 @@ def run(ctx):
             by_bound[name] = {"programs": len(progs), "cases": len(cases)}
             el = time.time() - t0
             times[name] = round(el, 2)
-            if len(cases) >= 10000:
+            if len(cases) >= 5000:
                 rate = el / len(cases)
             if cases:
                 pl, p, f = cases[len(cases) // 2]
